@@ -92,6 +92,7 @@ def contracts(repo):
         if '__setitem__' in sp.name or '_validate_key' in sp.name:
             items.append(sp)
     items.append(set_attribute_single_spec())
+    items.append(get_attribute_single_spec())
     return items
 
 
@@ -291,6 +292,49 @@ def unpacked_values(eng, st):
     v = SeqV(fresh('unpacked', IntSeq), 'list')
     st.pc.append(_z3.Length(v.t) == (_z3.Length(buf.t) + siz.t - 1) / siz.t)
     return v
+
+
+def ga_data(eng, name, st):
+    st = st.clone()
+    rid, pid, sid = eng.new_id(), eng.new_id(), eng.new_id()
+    st.heap[(sid, 'attribute')] = (_z3.Bool('_g_path_has_attribute'), IntV(_z3.Int('_g_aid')))
+    st.heap[(sid, '__closed__')] = True
+    st.heap[(sid, '__keys__')] = ('attribute',)
+    st.heap[(pid, 'segment')] = (_z3.BoolVal(True), PyListV([RefV(sid, 'rec')]))
+    st.heap[(pid, '__closed__')] = True
+    st.heap[(pid, '__keys__')] = ('segment',)
+    top = {'service': (_z3.Bool('_g_service_given'), IntV(0x0e)), 'path': (_z3.BoolVal(True), RefV(pid, 'rec')),
+           'get_attribute_single': (_z3.Bool('_g_ctx_given'), BoolV(_z3.BoolVal(True))),
+           'status_ext': (_z3.Bool('_g_has_ext'), OpaqueV(_z3.Const('_g_ext', USort), 'ext'))}
+    for k, pv in top.items():
+        st.heap[(rid, k)] = pv
+    st.heap[(rid, '__closed__')] = True
+    st.heap[(rid, '__keys__')] = tuple(top.keys())
+    for k in ('_g_path_has_attribute', '_g_service_given', '_g_ctx_given'):
+        eng.init_vals[k] = BoolV(_z3.Bool(k))
+    eng.init_vals['_g_attbytes'] = SeqV(_z3.Const('_g_attbytes', IntSeq), 'list')
+    eng.tracked_refs.add(rid)
+    return RefV(rid, 'rec'), st
+
+
+def get_attribute_single_spec():
+    attbytes = lambda eng, st: SeqV(_z3.Const('_g_attbytes', IntSeq), 'bytes')
+    return Spec('Object.request[get_attribute_single]', (DV, 'Object.request'),
+                params={'data': ga_data, '_g_att': ('Obj', 'Attribute', AC.VEC_FIELDS), '_g_att_exists': 'Bool'},
+                env={'str(a_id) in self.attribute': '_g_att_exists',
+                     'self.attribute[str(a_id)]': '_g_att',
+                     'self.attribute[str(a_id)].produce()': attbytes,
+                     '[b if type(b) is int else ord(b) for b in result]': lambda eng, st: SeqV(st.loc['result'].t, 'list'),
+                     'self.produce(data)': lambda eng, st: SeqV(_z3.Const('_g_produced', IntSeq), 'bytes')},
+                requires='(_g_service_given or _g_ctx_given) and _g_att.mask >= 0',
+                defs=dict(OK='_g_path_has_attribute and _g_att_exists and _g_att.mask % 2 == 0'),
+                ensures=[('an existing, readable attribute is returned as its produced bytes', 'implies(OK, data.status == 0x00 and data.get_attribute_single.data == _g_attbytes)'),
+                         ('anything else is refused with a non-zero status', 'implies(not OK, data.status != 0x00)'),
+                         ('the attribute is not changed by reading it', '_g_att.default == old(_g_att.default)'),
+                         ('reply-bit', 'data.service == 0x8e'), ('returns-true', 'result == True'), ('one-reply-payload-produced', "has(data, 'input')")],
+                raises={}, modifies=['data.service', 'data.status', 'data.status_ext', 'data.input', 'data.get_attribute_single'],
+                note='Get Attribute Single path of the whole method; Attribute.produce() by ASSUMED model (some byte string), the int-conversion '
+                     'comprehension is the identity on Python 3 bytes (ASSUMED)')
 
 
 def set_attribute_single_spec():
